@@ -9,7 +9,8 @@ CXXFLAGS_COMMON = -std=c++17 -O1 -g1 -DNDEBUG $(GUARD) -MMD -MP -w
 INC = -I/verif/shim $(foreach d,common Simplex_tree Persistence_matrix Zigzag_persistence Toplex_map Skeleton_blocker Rips_complex Bitmap_cubical_complex Persistent_cohomology,-I$(REPO)/src/$(d)/include)
 LDFLAGS_ASAN = $(SAN)
 
-all: $(BUILD)/toplex
+ENGINES_SIMPLE = toplex skbl
+all: $(foreach e,$(ENGINES_SIMPLE),$(BUILD)/$(e))
 
 $(BUILD)/core.o: /verif/sim/core.cpp /verif/sim/core.h
 	@mkdir -p $(BUILD)
@@ -19,7 +20,7 @@ $(BUILD)/%.o: /verif/engines/%.cpp
 	@mkdir -p $(BUILD)
 	$(CXX) $(CXXFLAGS_COMMON) $(SAN) $(INC) -c $< -o $@
 
-$(BUILD)/toplex: $(BUILD)/toplex.o $(BUILD)/core.o
+$(foreach e,$(ENGINES_SIMPLE),$(BUILD)/$(e)): $(BUILD)/%: $(BUILD)/%.o $(BUILD)/core.o
 	$(CXX) $(LDFLAGS_ASAN) $^ -o $@
 
 -include $(wildcard $(BUILD)/*.d)
